@@ -171,6 +171,16 @@ impl Monitor {
         // unordered compounds, additionally by sorted-token fingerprint in a second namespace.
         let tfp = fnv64(text.as_bytes());
         let kfp = fnv64(key.as_bytes());
+        // witness rebuild for the cross-shard merge: the driver names canonical-key fingerprints and this
+        // worker (same seed, shard and build as the one that recorded them) writes the items out
+        if let Some(want) = find_set() {
+            if want.contains(&kfp) {
+                use std::io::Write;
+                if let Ok(mut f) = std::fs::OpenOptions::new().create(true).append(true).open(format!("{}/find-{}.jsonl", ctx.out_dir, ctx.shard)) {
+                    let _ = writeln!(f, "{}", J::obj().set("kfp", kfp.to_string()).set("ns", ns as usize).set("text", text.clone()).set("key", key.clone()).set("item", item.to_json()).to_string());
+                }
+            }
+        }
         // witnesses are kept for the first items and only while they are small (memory)
         let small = match item {
             Item::N(n) => n.term().size() <= 30,
@@ -179,7 +189,9 @@ impl Monitor {
         let keep = if self.seen.len() < self.keep_items && small { Some(item.clone()) } else { None };
         match self.seen.get(&(ns, tfp)) {
             Some((other_k, other_item)) => {
-                if *other_k != kfp {
+                // VERIF_C16_ONLINE=0 is the self-test knob of the offline merge: the online report is skipped so
+                // that a collision can only be found across the workers' logs (never set by a registered command)
+                if *other_k != kfp && std::env::var("VERIF_C16_ONLINE").as_deref() != Ok("0") {
                     let other_desc = other_item.as_ref().map(|i| i.key()).unwrap_or_else(|| "<not kept>".into());
                     let mut ks = vec![key.clone(), other_desc.clone()];
                     ks.sort();
@@ -198,6 +210,29 @@ impl Monitor {
                 self.seen.insert((ns, tfp), (kfp, keep));
             }
         }
+    }
+}
+
+fn find_set() -> Option<&'static std::collections::HashSet<u64>> {
+    static FIND: std::sync::OnceLock<Option<std::collections::HashSet<u64>>> = std::sync::OnceLock::new();
+    FIND.get_or_init(|| std::env::var("VERIF_C16_FIND").ok().map(|s| s.split(',').filter_map(|x| x.trim().parse().ok()).collect()))
+        .as_ref()
+}
+
+impl Monitor {
+    /// the event log of this worker for the offline, cross-shard injectivity check: one record
+    /// (text fingerprint mixed with the namespace, canonical-key fingerprint) per distinct text
+    pub fn write_log(&self, path: &str) -> std::io::Result<usize> {
+        use std::io::Write;
+        let mut v: Vec<(u64, u64)> = self.seen.iter().map(|((ns, tfp), (kfp, _))| (tfp ^ (*ns as u64).wrapping_mul(0x9E37_79B9_7F4A_7C15), *kfp)).collect();
+        v.sort_unstable();
+        let mut f = std::io::BufWriter::new(std::fs::File::create(path)?);
+        for (t, k) in &v {
+            f.write_all(&t.to_le_bytes())?;
+            f.write_all(&k.to_le_bytes())?;
+        }
+        f.flush()?;
+        Ok(v.len())
     }
 }
 
@@ -473,6 +508,10 @@ pub fn run(ctx: &mut Ctx) {
         }
     }
     ctx.report.note("distinct_texts_in_monitor", mon.seen.len());
+    match mon.write_log(&format!("{}/shard-{}.c16", ctx.out_dir, ctx.shard)) {
+        Ok(n) => ctx.report.note("texts_logged_for_cross_shard_merge", n),
+        Err(e) => ctx.report.inconclusive.push(format!("the text log for the cross-shard injectivity merge could not be written: {}", e)),
+    }
     ctx.report.note(
         "rule",
         "a case = one value rendered to Typst and fed to the injectivity monitor (text -> canonical key map, per shard); non-trivial = a non-atomic term / any sentence, task, truth, budget, stamp or punctuation; distinct by canonical key",
